@@ -143,3 +143,11 @@ Theorem C03_escaped_paths_in_domain : forall p0 p, byte_range p0 -> escaped_path
   pct_wf 0 p = true /\ contains_byte 63 p = false /\
   (match p0 with [] => True | c :: _ => c = 47 end -> match p with [] => true | c :: _ => c =? 47 end = true).
 Proof. exact escaped_path_of_wf. Qed.
+
+(* ---------- tie to the source: the part of the model this property rests on is what /verif/translate derives from
+   /repo's Go source on this run (Generated/*.v are rewritten before every build; see DESIGN.md section 9) ---------- *)
+From HC.Generated Require Import SrcStatus.
+From HC.Proofs Require Import TieStatus.
+Theorem C03_source_method_gate : forall q, src_is_request_method_understood q = is_request_method_understood q.
+Proof. exact tie_is_request_method_understood. Qed.
+Print Assumptions C03_source_method_gate.
